@@ -407,3 +407,53 @@ def constant_factors(spec, g, p=0.3):
             t['weights'] = nested([c] * numel(shape), list(shape))
             t['pattern'] = {'physical': c, 'expand': list(shape), 'vaxes': list(range(len(shape))), 'default': 0.0}
     return spec
+
+
+def ring_chord_spec(g, menu='small'):
+    """one linearly recursive SCC of 3-5 mutually recursive nonterminals: a ring X0 -> X1 -> ... -> X0 with chords, every
+    nonterminal with a base rule, names drawn from the stream (the elimination order inside multi_solve depends on names,
+    on registration order and on which member is the start symbol).  Vector-valued (arity 1) or scalar members."""
+    k = g.randrange(3, 6)
+    pool = ['N%s%d' % (c, d) for c in 'abpqxyz' for d in range(10)]
+    names = g.sample(pool, k)
+    sz = g.choice([1, 2, 2, 3])
+    vec = g.random() < 0.6
+    domains = {'A': {'kind': 'range', 'size': sz} if g.random() < 0.5 else {'kind': 'finite', 'values': ['a', 'b', 'c'][:sz]}}
+    typ = ['A'] if vec else []
+    nts = {n: {'type': list(typ)} for n in names}
+    terms = {}
+    rules = []
+
+    def lin_rule(src, dst, ti):
+        # src(x) -> t(x, y) dst(y)      |   src -> c dst   (scalar)
+        name = 't%d' % ti
+        if vec:
+            terms[name] = {'type': ['A', 'A'], 'weights': gen_weights(g, [sz, sz], menu)}
+            return {'lhs': src, 'nodes': [{'label': 'A', 'id': None}, {'label': 'A', 'id': None}], 'ext': [0],
+                    'edges': [{'label': name, 'att': [0, 1], 'id': None}, {'label': dst, 'att': [1], 'id': None}]}
+        terms[name] = {'type': [], 'weights': gen_weights(g, [], menu)}
+        return {'lhs': src, 'nodes': [], 'ext': [], 'edges': [{'label': name, 'att': [], 'id': None}, {'label': dst, 'att': [], 'id': None}]}
+    ti = 0
+    for i, n in enumerate(names):
+        rules.append(lin_rule(n, names[(i + 1) % k], ti))
+        ti += 1
+    for _ in range(g.randrange(1, 4)):
+        a_, b_ = g.randrange(k), g.randrange(k)
+        rules.append(lin_rule(names[a_], names[b_], ti))
+        ti += 1
+    for n in names:
+        if g.random() < 0.7 or n == names[0]:
+            name = 'b%d' % ti
+            ti += 1
+            if vec:
+                terms[name] = {'type': ['A'], 'weights': gen_weights(g, [sz], 'pos')}
+                rules.append({'lhs': n, 'nodes': [{'label': 'A', 'id': None}], 'ext': [0], 'edges': [{'label': name, 'att': [0], 'id': None}]})
+            else:
+                terms[name] = {'type': [], 'weights': gen_weights(g, [], 'pos')}
+                rules.append({'lhs': n, 'nodes': [], 'ext': [], 'edges': [{'label': name, 'att': [], 'id': None}]})
+    g.shuffle(rules)
+    # the nts dict order is the registration order of the labels
+    order = list(names)
+    g.shuffle(order)
+    nts = {n: nts[n] for n in order}
+    return {'domains': domains, 'terms': terms, 'nts': nts, 'start': g.choice(names), 'rules': rules}
